@@ -5,17 +5,25 @@
     SentinelProofs.v and followed by [Print Assumptions].
 
     Vocabulary (Sentinel.v).  A history [ops : list op] over [ONewVar v], [ONewMap f a],
-    [ONewSentinel w], [OObserve n], [OUnobserve n], [OSetVar n v], [OUnwatch x],
-    [OStabilize fires] is played from the empty graph [init] by [run c init ops]; nodes are
+    [ONewSentinel w], [OObserve n], [OUnobserve n], [OSetVar n v], [OUnwatch x] (a no-op
+    for a sentinel that no longer watches), [OStabilize fires] and [OStabilizeStopped fires
+    ran failed panicked] (a pass stopped by failing predicates) is played from the empty graph [init] by [run c init ops]; nodes are
     named by creation index; [fires] lists the sentinels whose predicate returns true in that
     pass.  [head : cfg] is /repo at HEAD; the three switches of [cfg] turn off, one each, the
     repairs 640a5e6 (cfg_relink_on_return), 2d28149 (cfg_order_watch_edge) and 8b0f30c
-    (cfg_start_attached).  For a sentinel [x]: [watched] is the node it watches ([None] after
+    (cfg_start_attached); a fourth, cfg_requeue_panicked, turns off the requeue in
+    recomputePanicked.  For a sentinel [x]: [watched] is the node it watches ([None] after
     Unwatch), [lchild] / [lparent] are the two halves of the watch edge (the sentinel lists
     the node as a child / the node lists the sentinel as a parent), [reg] is registration
     with the graph, [queued] membership of the recompute heap.  [last_pass c ops fires] is
     the pass [OStabilize fires] performed after [ops], with its log: [runs] (Map function
     invocations with their argument) and [evals] (sentinel predicate evaluations).
+
+    [OStabilizeStopped fires ran failed panicked]: the predicates of the sentinels [failed]
+    returned an error, those of [panicked] panicked, [ran] are the nodes recomputed before the
+    pass stopped; every theorem below quantifies over histories that contain such passes,
+    with arbitrary lists.  [last_stopped c ops fires ran failed panicked] is that pass
+    performed after [ops], with its log.
 
     The model is compared with the library on generated histories, under Stabilize and under
     ParallelStabilize, by harness/cmd/sentineltrace and SentinelRun.v. *)
@@ -67,18 +75,63 @@ Print Assumptions C03_sentinel_values_defined.
 
 (** 4. Each repaired line is load-bearing: with one switch off a history violates statement 1
     (and, for 8b0f30c, statement 2a). *)
-Theorem C03_sentinel_relink_refuted : ~ watch_stmt (Cfg false true true) hist_relink 2.
+Theorem C03_sentinel_relink_refuted : ~ watch_stmt (Cfg false true true true) hist_relink 2.
 Proof. exact relink_refuted. Qed.
 Print Assumptions C03_sentinel_relink_refuted.
 
-Theorem C03_sentinel_order_refuted : ~ watch_stmt (Cfg true false true) hist_order 1.
+Theorem C03_sentinel_order_refuted : ~ watch_stmt (Cfg true false true true) hist_order 1.
 Proof. exact order_refuted. Qed.
 Print Assumptions C03_sentinel_order_refuted.
 
-Theorem C03_sentinel_start_refuted : ~ watch_stmt (Cfg true true false) hist_start 2.
+Theorem C03_sentinel_start_refuted : ~ watch_stmt (Cfg true true false true) hist_start 2.
 Proof. exact start_refuted. Qed.
 Print Assumptions C03_sentinel_start_refuted.
 
-Theorem C03_sentinel_start_pass_refuted : ~ pass_stmt (Cfg true true false) hist_start [2] 2 1.
+Theorem C03_sentinel_start_pass_refuted : ~ pass_stmt (Cfg true true false true) hist_start [2] 2 1.
 Proof. exact start_pass_refuted. Qed.
 Print Assumptions C03_sentinel_start_pass_refuted.
+
+(** 5. Passes stopped by a failing (erroring or panicking) predicate.  Theorems 1-3 above
+    already range over histories with such passes; these are the instances asked for.
+
+    5a. After a stopped pass every watching sentinel whose node is in the graph is queued and
+    its watch edge is intact (whatever ran, whichever predicates failed or panicked). *)
+Theorem C03_sentinel_stopped_pass_requeues :
+  forall ops fires ran failed panicked x w, stopped_stmt head ops fires ran failed panicked x w.
+Proof. exact stopped_pass_requeues. Qed.
+Print Assumptions C03_sentinel_stopped_pass_requeues.
+
+(** without the line of recomputePanicked that puts the node back on the heap
+    ([cfg_requeue_panicked] off) a panicking sentinel drops out of the heap: 5a fails *)
+Theorem C03_sentinel_requeue_panicked_refuted :
+  ~ stopped_stmt (Cfg true true true false) hist_panic [] [] [] [2] 2 1.
+Proof. exact requeue_panicked_refuted. Qed.
+Print Assumptions C03_sentinel_requeue_panicked_refuted.
+
+(** 5b. A sentinel whose predicate was evaluated and failed in the stopped pass is queued
+    after it. *)
+Theorem C03_sentinel_failed_stays_queued :
+  forall ops fires ran failed panicked x,
+    let r := last_stopped head ops fires ran failed panicked in
+    x ∈ failed ++ panicked -> x ∈ evals (snd r) -> queued (nd (nodes (fst r)) x) = true.
+Proof. exact failed_sentinel_stays_queued. Qed.
+Print Assumptions C03_sentinel_failed_stays_queued.
+
+(** 5c. Only listed nodes run in a stopped pass: a Map function that runs belongs to [ran]. *)
+Theorem C03_sentinel_stopped_pass_runs_listed :
+  forall ops fires ran failed panicked m,
+    m ∈ map fst (runs (snd (last_stopped head ops fires ran failed panicked))) -> m ∈ ran.
+Proof. exact stopped_pass_runs_listed. Qed.
+Print Assumptions C03_sentinel_stopped_pass_runs_listed.
+
+(** 5d. The retry: the pass after a stopped pass evaluates every watching sentinel whose node
+    is in the graph exactly once, wakes the Map of each one that fires exactly once, and
+    leaves every node of the graph at its from-scratch value. *)
+Theorem C03_sentinel_retry :
+  forall ops fires ran failed panicked fires',
+    let ops' := ops ++ [OStabilizeStopped fires ran failed panicked] in
+    (forall x w, pass_stmt head ops' fires' x w) /\
+    (forall m v, let l' := nodes (fst (last_pass head ops' fires')) in
+                 reg (nd l' m) = true -> scratch l' m v -> val (nd l' m) = v).
+Proof. exact retry_after_stopped_pass. Qed.
+Print Assumptions C03_sentinel_retry.
